@@ -155,7 +155,8 @@ def run_case(mod_name, case, tier, seed, validate_n):
     for i in idx[:2]:
         out['samples'].append(dict(inputs=path_models[i][0], observed=path_models[i][2]))
     out['wall_s'] = time.time() - t0
-    return out
+    # plain data only across the process boundary
+    return json.loads(json.dumps(out, default=repr))
 
 
 def norm_obs(x):
